@@ -982,7 +982,13 @@ struct InflateSession {
                                 return;
                         }
                         uint32_t produced = 64 - st->avail_out;
-                        h.rec("poke", { was_finished, ret, ret < 0 ? 0 : (int64_t) produced, st->block_state });
+                        // after an error return the decoder's state is whatever the failed call left (tables half built, garbage the caller
+                        // pre-filled): what a further call returns is outside the contract and must not enter the history, or twin runs
+                        // with different garbage would differ legitimately
+                        if (was_finished)
+                                h.rec("poke", { 1, ret, ret < 0 ? 0 : (int64_t) produced, st->block_state });
+                        else
+                                h.rec("poke", { 0 });
                         COUNT(was_finished ? "io.call_after_completion" : "io.call_after_error");
                         if (!g_arena.canary_ok(so) || !g_arena.canary_ok(s_state)) {
                                 rr.fail("C05.canary", "isal_inflate called after the end of the session changed bytes outside its declared buffers");
